@@ -5,7 +5,8 @@ id=$1; shift
 cd /verif
 if ! git -C /repo diff --quiet; then echo "/repo has uncommitted changes; refusing"; exit 2; fi
 git -C /repo apply /verif/seeded/$id/patch.diff || { echo "patch does not apply"; exit 2; }
-trap 'git -C /repo checkout -- . ; echo "[seedtest] /repo restored"' EXIT
+rm -rf .cache/evidence.keep; cp -r evidence .cache/evidence.keep
+trap 'git -C /repo checkout -- . ; rm -rf evidence; mv .cache/evidence.keep evidence; echo "[seedtest] /repo and evidence/ restored"' EXIT
 for p in "$@"; do
   echo "=== $p on $id"
   ./check $p 2>&1 | grep -E "^(VIOLATION|OK|KNOWN)|PROBLEM" | cut -c1-400
